@@ -195,7 +195,7 @@ class Wildcard(Base):
             wildcard.ipnets() -> [IPv4Network("10.0.0.0/30"),
                                   IPv4Network("10.0.1.0/30")]
         """
-        return _ipnets(int(self._prefix), tuple(self._ncwb), self._prefixlen)
+        return list(_ipnets(int(self._prefix), tuple(self._ncwb), self._prefixlen))
 
     # =========================== helper =============================
 
